@@ -166,3 +166,17 @@ func validReply(r gen.R, op *rm.Op, serial uint32, a rm.Vals) []byte {
 	}
 	return msg
 }
+
+// workerIP gives every worker goroutine of every batch its own loopback address for client sockets, so that a
+// datagram the farm sends late to a port that has been closed can never reach another worker's (or another
+// process's) client that happened to be given the same ephemeral port number.
+func workerIP(c *Ctx, w int) string {
+	return fmt.Sprintf("127.%d.%d.%d", 16+c.Batch%200, 1+w/250, 1+w%250)
+}
+
+// ipHex is the /proc/net spelling of an IPv4 address (little endian hex).
+func ipHex(ip string) string {
+	var a, b, cc, d int
+	fmt.Sscanf(ip, "%d.%d.%d.%d", &a, &b, &cc, &d)
+	return fmt.Sprintf("%02X%02X%02X%02X", d, cc, b, a)
+}
